@@ -4,6 +4,7 @@ import (
 	"fmt"
 	"go/token"
 	"go/types"
+	"strings"
 
 	"golang.org/x/tools/go/ssa"
 
@@ -876,6 +877,181 @@ func runTYPEGUARD(c *Ctx) {
 				"with neither registered types nor an example key/value to learn the Go type from, the loader cannot unmarshal what is being written: MakeRoot hands out a root whose reload loses every value (or fails), instead of refusing")
 		} else {
 			c.OK(P.InstrPos(target), "node store unreachable when "+what, "pruned control-flow search", false)
+		}
+	}
+}
+
+// ---- YIELDPAIR ------------------------------------------------------------------------
+
+func init() {
+	Register(&Rule{ID: "YIELDPAIR", Props: []string{"C01", "C10", "C06"}, Min: 3,
+		Doc: "an entry is always handed on as the key and the value of one position: every call of an entry callback (a function value taking two interface{} and returning error, or (bool, error)) passes X.Key[i] and X.Value[i] of the same node X and the same index expression i, or the Key and Value of one entry/yield item; and a diff cell named …Value is assigned from a Value, the key cell from a Key.",
+		Run: runYIELDPAIR})
+}
+
+// kvPath: v reads a Key or Value — element of a node list, or field of an entry item: (which, owner path).
+func kvPath(v ssa.Value) (which, owner string, ok bool) {
+	v = ir.ResolveCell(ir.Strip(v))
+	switch x := v.(type) {
+	case *ssa.UnOp:
+		if x.Op != token.MUL {
+			return "", "", false
+		}
+		switch a := x.X.(type) {
+		case *ssa.IndexAddr:
+			if base, f, ok := nodeSliceRoot(a.X); ok && (f == "Key" || f == "Value") {
+				return f, ir.Sym(ir.ResolveCell(base)) + "[" + ir.Sym(a.Index) + "]", true
+			}
+		case *ssa.FieldAddr:
+			f := ir.FieldName(a.X.Type(), a.Field)
+			if f == "Key" || f == "Value" {
+				return f, ir.Sym(a.X), true
+			}
+		}
+	case *ssa.Field:
+		f := ir.FieldName(x.X.Type(), x.Field)
+		if f == "Key" || f == "Value" {
+			return f, ir.Sym(x.X), true
+		}
+	}
+	return "", "", false
+}
+
+func runYIELDPAIR(c *Ctx) {
+	P := c.P
+	emptyIface := func(t types.Type) bool {
+		i, ok := t.Underlying().(*types.Interface)
+		return ok && i.NumMethods() == 0
+	}
+	for _, fn := range P.Funcs {
+		if fn.Pkg.Pkg.Path() != ir.MastPath || c.Facts.debugOnlyFunc(fn) != "" {
+			continue
+		}
+		for _, ci := range CallsOf(fn) {
+			com := ci.Common()
+			if com.IsInvoke() || ir.Callee(com) != nil {
+				continue // only calls through function values
+			}
+			// the key callbacks (order, layer) are given keys, never values
+			if ext := c.Facts.External(ci); strings.Contains(ext, "keyOrder") || strings.Contains(ext, "keyLayer") || strings.Contains(ext, "keyCompare") {
+				for _, a := range com.Args {
+					if w, o, ok := kvPath(a); ok {
+						if w == "Key" {
+							c.OK(P.InstrPos(ci), "argument of the key callback in "+ir.FuncName(fn), "a Key ("+pathDesc(o)+")", true)
+						} else {
+							c.Violation(fn, P.InstrPos(ci), "key callback given a value",
+								"the order / layer function is applied to the Value of "+pathDesc(o)+" instead of its Key: positions and layers computed from values place or find entries at the wrong place")
+						}
+					}
+				}
+				continue
+			}
+			sig := com.Signature()
+			if sig.Params().Len() != 2 || !emptyIface(sig.Params().At(0).Type()) || !emptyIface(sig.Params().At(1).Type()) {
+				continue
+			}
+			rs := sig.Results()
+			if rs.Len() == 0 || !ir.IsErrorType(rs.At(rs.Len()-1).Type()) {
+				continue
+			}
+			if rs.Len() == 2 {
+				if bt, ok := rs.At(0).Type().Underlying().(*types.Basic); !ok || bt.Kind() != types.Bool {
+					continue // (int, error): the comparator, not an entry callback
+				}
+			}
+			w0, o0, ok0 := kvPath(com.Args[0])
+			w1, o1, ok1 := kvPath(com.Args[1])
+			pos := P.InstrPos(ci)
+			what := "entry callback called in " + ir.FuncName(fn)
+			switch {
+			case !ok0 && !ok1:
+				// arguments come from elsewhere (parameters handed through, diff cells): not a read of a node
+				continue
+			case ok0 && ok1 && w0 == "Key" && w1 == "Value" && o0 == o1:
+				c.OK(pos, what, "key and value of the same position ("+pathDesc(o0)+")", false)
+			default:
+				c.Violation(fn, pos, "entry callback not given the key and the value of one position",
+					fmt.Sprintf("the callback receives (%s of %s, %s of %s): an iteration / seek / diff would report a key with another entry's value, or a key twice", w0, pathDesc(o0), w1, pathDesc(o1)))
+			}
+		}
+		// diff cells
+		for _, b := range fn.Blocks {
+			if ir.IsDead(b) {
+				continue
+			}
+			for _, ins := range b.Instrs {
+				st, ok := ins.(*ssa.Store)
+				if !ok {
+					continue
+				}
+				fa, ok := st.Addr.(*ssa.FieldAddr)
+				if !ok {
+					continue
+				}
+				// an entry item built from a node: entry{Key: X.Key[i], Value: X.Value[i]}
+				if ir.IsPtrToNamed(fa.X.Type(), "entry") {
+					f := ir.FieldName(fa.X.Type(), fa.Field)
+					if f != "Key" && f != "Value" {
+						continue
+					}
+					w, o, ok := kvPath(st.Val)
+					if !ok {
+						continue
+					}
+					// the sibling store into the same item
+					other := ""
+					if fa.X.Referrers() != nil {
+						for _, r := range *fa.X.Referrers() {
+							if fa2, ok := r.(*ssa.FieldAddr); ok && fa2 != fa && fa2.Referrers() != nil {
+								f2 := ir.FieldName(fa2.X.Type(), fa2.Field)
+								if f2 != "Key" && f2 != "Value" {
+									continue
+								}
+								for _, r2 := range *fa2.Referrers() {
+									if st2, ok := r2.(*ssa.Store); ok && st2.Addr == ssa.Value(fa2) {
+										if _, o2, ok := kvPath(st2.Val); ok {
+											other = o2
+										}
+									}
+								}
+							}
+						}
+					}
+					if w == f && (other == "" || other == o) {
+						c.OK(P.InstrPos(st), fmt.Sprintf("entry item .%s built in %s", f, ir.FuncName(fn)), "from the "+w+" of "+pathDesc(o), false)
+					} else {
+						c.Violation(fn, P.InstrPos(st), "entry item built from mismatched key/value",
+							fmt.Sprintf("the item's %s is taken from the %s of %s (its other half from %s): the diff would pair a key with another entry's value", f, w, pathDesc(o), pathDesc(other)))
+					}
+					continue
+				}
+				if !ir.IsPtrToNamed(fa.X.Type(), "diffState") {
+					continue
+				}
+				f := ir.FieldName(fa.X.Type(), fa.Field)
+				want := ""
+				switch {
+				case strings.HasSuffix(f, "Value"):
+					want = "Value"
+				case strings.HasSuffix(f, "Key"):
+					want = "Key"
+				default:
+					continue
+				}
+				if _, isC := st.Val.(*ssa.Const); isC {
+					continue
+				}
+				w, o, ok := kvPath(st.Val)
+				if !ok {
+					continue
+				}
+				if w == want {
+					c.OK(P.InstrPos(st), fmt.Sprintf("diff cell %s set in %s", f, ir.FuncName(fn)), "from the "+want+" of "+pathDesc(o), false)
+				} else {
+					c.Violation(fn, P.InstrPos(st), "diff cell "+f+" set from a "+w,
+						"the "+strings.ToLower(want)+" reported for a difference is taken from the "+w+" of "+pathDesc(o))
+				}
+			}
 		}
 	}
 }
